@@ -219,8 +219,8 @@ func C01Scenario() *Scenario {
 		w.Cfg["policy"] = pol.Name
 		pokeStep := 0
 		w.Stages = []Stage{
-			{Name: "converge", Policy: pol, Quiet: true, MaxSteps: 6000, Do: func(w *World) {}},
-			{Name: "drain", Quiet: true, MaxSteps: 6000, Do: func(w *World) { edits = 0 }},
+			{Name: "converge", Policy: pol, Quiet: true, MaxSteps: 2500, Do: func(w *World) {}, OnBudget: func(w *World) *Violation { return c01Budget(w, cfg, opts) }},
+			{Name: "drain", Quiet: true, MaxSteps: 2500, Do: func(w *World) { edits = 0 }, OnBudget: func(w *World) *Violation { return c01Budget(w, cfg, opts) }},
 			{Name: "poke", Quiet: true, MaxSteps: 3000,
 				Do: func(w *World) {
 					pokeStep = w.step
@@ -275,9 +275,9 @@ func desiredFromResponse(w *World, body []byte, field string, parentNS string) (
 	return out, order, nil
 }
 
-func c01Check(w *World, cfg *CompositeCfg, opts *BootOptions, parents []ParentRef, pokeStep, lastEditStep int) *Violation {
+func compositeSig(cfg *CompositeCfg, opts *BootOptions) map[string]string {
 	sig := map[string]string{"controller": "composite", "parentScope": map[bool]string{true: "namespaced", false: "cluster"}[cfg.Parent.Namespaced],
-		"apply": map[bool]string{true: "ssa", false: "dynamic"}[opts.Proc.SSA]}
+		"apply": map[bool]string{true: "ssa", false: "dynamic"}[opts.Proc.SSA], "generateSelector": fmt.Sprint(cfg.GenerateSelector)}
 	rolling := false
 	for _, r := range cfg.Children {
 		if strings.HasPrefix(r.Method, "Rolling") {
@@ -285,9 +285,28 @@ func c01Check(w *World, cfg *CompositeCfg, opts *BootOptions, parents []ParentRe
 		}
 	}
 	sig["rolling"] = fmt.Sprint(rolling)
+	return sig
+}
+
+// c01Budget: without any injected failure the world did not become quiet.
+func c01Budget(w *World, cfg *CompositeCfg, opts *BootOptions) *Violation {
+	last := ""
+	if len(w.Errs) > 0 {
+		last = w.Errs[len(w.Errs)-1].Msg
+	}
+	return &Violation{Prop: "C01", Class: "no-quiescence", Sig: compositeSig(cfg, opts),
+		Detail: fmt.Sprintf("after %d kernel steps and %.0f simulated seconds without any injected failure metacontroller is still writing or failing (%d sync errors; last: %s)", w.step, w.SimSeconds, len(w.Errs), last)}
+}
+
+func c01Check(w *World, cfg *CompositeCfg, opts *BootOptions, parents []ParentRef, pokeStep, lastEditStep int) *Violation {
+	sig := compositeSig(cfg, opts)
 	// (1) quiet: after the poke no write of any kind is sent
 	for _, r := range w.Reqs {
-		if r.ParkStep > pokeStep && r.IsWrite() && r.Fault == "" {
+		isChild := r.Res != nil && cfg.Rule(r.Res) != nil
+		// The statement forbids any write request for a child and any change in
+		// the API server; a PUT of a ControllerRevision or parent that the server
+		// short-circuits as a no-op changes nothing and is not about a child.
+		if r.ParkStep > pokeStep && r.IsWrite() && r.Fault == "" && (isChild || r.Applied) {
 			return &Violation{Prop: "C01", Class: "write-after-convergence", Sig: sig,
 				Detail: fmt.Sprintf("request %s sent at step %d although the desired state had been reached before the no-op poke at step %d", r.Short(), r.ParkStep, pokeStep)}
 		}
@@ -305,7 +324,10 @@ func c01Check(w *World, cfg *CompositeCfg, opts *BootOptions, parents []ParentRe
 		}
 		var last *HookRec
 		for _, h := range w.Hooks {
-			if h.ParkStep > pokeStep && h.Code == 200 && (h.Kind == "sync" || h.Kind == "finalize") && hookParentIs(h, "parent", p) {
+			// with a rolling strategy there is one call per live parent revision;
+			// the one that describes the desired end state carries the live spec
+			if h.ParkStep > pokeStep && h.Code == 200 && (h.Kind == "sync" || h.Kind == "finalize") && hookParentIs(h, "parent", p) &&
+				jsonString(getPath(h.Req, "parent", "spec")) == jsonString(po["spec"]) {
 				last = h
 			}
 		}
